@@ -76,10 +76,11 @@ class FileCacheConfig:
         path: str = TEMPORARY_DIRECTORY,
     ):
         self.path = path
-        self.size_gb = size_gb
-        self.parallel = parallel
-        self.allow_for_missing_files = allow_for_missing_files
-
+        self._settings = {
+            "size_gb": size_gb,
+            "parallel": parallel,
+            "allow_for_missing_files": allow_for_missing_files,
+        }
         if self.config_exists():
             self.load_config()
         else:
@@ -95,12 +96,14 @@ class FileCacheConfig:
     def load_config(self) -> None:
         with open(self.name, "rb") as fp:
             config = json.load(fp)
-            self.size_gb = config["size_gb"]
-            self.parallel = config["parallel"]
-            self.allow_for_missing_files = config["allow_for_missing_files"]
+            self._settings["size_gb"] = config["size_gb"]
+            self._settings["parallel"] = config["parallel"]
+            self._settings["allow_for_missing_files"] = config[
+                "allow_for_missing_files"
+            ]
 
     def _update_config(self, key, value, write=True):
-        self[key] = value
+        self._settings[key] = value
         if write:
             self._write_config()
 
@@ -116,6 +119,10 @@ class FileCacheConfig:
                     indent=4,
                 )
             )
+
+    @property
+    def size_gb(self) -> Union[float, int]:
+        return self._settings["size_gb"]
 
     @property
     def max_size(self) -> Union[float, int]:
@@ -135,7 +142,7 @@ class FileCacheConfig:
 
     @property
     def parallel(self) -> bool:
-        return self.parallel
+        return self._settings["parallel"]
 
     @parallel.setter
     def parallel(self, parallel: bool):
@@ -143,7 +150,7 @@ class FileCacheConfig:
 
     @property
     def allow_for_missing_files(self) -> bool:
-        return self.allow_for_missing_files
+        return self._settings["allow_for_missing_files"]
 
     @allow_for_missing_files.setter
     def allow_for_missing_files(self, allow_for_missing_files: bool):
